@@ -154,6 +154,7 @@ func (V *Verifier) report(spec *propSpec, res *checkResult, tier string, seed in
 	vac := map[string]int{"canaries": 0, "reachable": 0, "undecided": 0, "vacuous": 0}
 	var failed []*Oblig
 	all := append(append([]*Oblig(nil), res.obls...), res.extraObls...)
+	deadSeen := map[string][]*Oblig{}
 	for _, o := range all {
 		if o.ExpectSat {
 			vac["canaries"]++
@@ -161,8 +162,7 @@ func (V *Verifier) report(spec *propSpec, res *checkResult, tier string, seed in
 			case Sat:
 				vac["reachable"]++
 			case Unsat:
-				vac["vacuous"]++
-				failed = append(failed, o)
+				deadSeen[o.Fn] = append(deadSeen[o.Fn], o)
 			default:
 				vac["undecided"]++
 			}
@@ -177,6 +177,19 @@ func (V *Verifier) report(spec *propSpec, res *checkResult, tier string, seed in
 		} else {
 			failed = append(failed, o)
 		}
+	}
+	// returns proved unreachable: allowed only as many as the contract declares
+	for fn, os := range deadSeen {
+		allowed := 0
+		if c := V.CS.ByKey[fn]; c != nil {
+			allowed = c.DeadReturns
+		}
+		if len(os) <= allowed {
+			vac["declared-dead"] += len(os)
+			continue
+		}
+		vac["vacuous"] += len(os)
+		failed = append(failed, os...)
 	}
 	// encode errors are failures of the functions' obligations
 	var encErrKeys []string
